@@ -158,4 +158,24 @@ Section P.
       destruct (N.eqb (n_ns_of_name nm name) (n_no_ns nm) && N.eqb (fst d) (n_empty_prefix nm)); [discriminate|].
       destruct (has_prefix (fst d) (declarations z)); [discriminate|]. intros H; inversion H; exact I.
   Qed.
+  (* a declaration is written as xmlns="uri" or xmlns:p="uri" with the URI escaped as an attribute value, or not at all; the
+     serialiser state does not change; and a prefix bound to "no namespace" -- which XML cannot spell: xmlns:p="" is not
+     well-formed, and the parser refuses it -- is never written *)
+  Theorem prefix_token_spec prm st z p ns st' t :
+    render nm prm st z (OPrefix p ns) = inr (st', t) ->
+    st' = st
+    /\ (token_text t = []
+        \/ (p = n_empty_prefix nm /\ token_text t = [32] ++ s_xmlns ++ [61; 34] ++ serialize_attribute (n_ns_str nm ns) ++ [34])
+        \/ (p <> n_empty_prefix nm /\ ns <> n_no_ns nm
+            /\ token_text t = [32] ++ s_xmlns ++ [58] ++ n_prefix_str nm p ++ [61; 34] ++ serialize_attribute (n_ns_str nm ns) ++ [34])).
+  Proof.
+    cbn [render]. intros H.
+    destruct (N.eqb p (n_xml_prefix nm) && N.eqb ns (n_xml_ns nm) && negb (existsb (fun d => N.eqb (fst d) p) (declarations z))).
+    { inversion H; subst. split; [reflexivity|left; reflexivity]. }
+    destruct (N.eqb_spec p (n_empty_prefix nm)) as [Hp|Hp]; cbn [negb andb] in H.
+    { inversion H; subst. split; [reflexivity|right; left; split; reflexivity]. }
+    destruct (N.eqb_spec ns (n_no_ns nm)) as [Hn|Hn].
+    { inversion H; subst. split; [reflexivity|left; reflexivity]. }
+    inversion H; subst. split; [reflexivity|right; right; repeat split; assumption].
+  Qed.
 End P.
